@@ -460,6 +460,38 @@ Example parent_string_nonvacuous :
   /\ normalize (Some (finish b)) (RFrag (Some [])) = normalize (Some b) (RFrag (Some [])).
 Proof. eexists. split; [vm_compute; reflexivity|]. split; [vm_compute; discriminate|vm_compute; reflexivity]. Qed.
 
+(* ---------- the fragment of the reference plays no role (except that a fragment-only reference
+   is not the empty reference, which ada refuses) *)
+
+Lemma whatwg_frag s a p q f f' : whatwg (Url s a p q f) = whatwg (Url s a p q f').
+Proof. reflexivity. Qed.
+
+Lemma norm_fragment_irrelevant_lemma : forall parent r, is_frag_only r = false ->
+  normalize parent r = normalize parent (drop_frag r).
+Proof.
+  intros parent r Hr. unfold normalize, norm_state, norm_state_gen, flow_a, flow_b, schemeless, base_for.
+  destruct r as [u|a p q f|p q f|p q f|q f|f]; try discriminate Hr; destruct parent as [b|];
+    cbn [drop_frag andb resolve]; reflexivity.
+Qed.
+
+(* RFC 3986 5.2.2: a reference with an authority but no scheme takes the base's scheme *)
+Lemma scheme_relative_takes_parent_scheme_lemma : forall b a p q f w, is_state b ->
+  norm_state (Some b) (RSchemeRel a p q f) = Ok w -> u_scheme w = u_scheme b.
+Proof.
+  intros b a p q f w (Hw & _) H. rewrite resolve_scheme_rel_lemma in H. unfold whatwg in H.
+  cbn [u_scheme u_auth] in H. destruct (norm_port _ _); [|discriminate].
+  destruct (negb _); [discriminate|]. destruct (host_ok _); [|discriminate].
+  injection H as <-. cbn [u_scheme]. apply is_web_lower, Hw.
+Qed.
+
+Example fragment_scheme_nonvacuous :
+  obs_text (normalize (Some ex_parent) (RPathRel [bs "other.html"] None (Some (bs "sec#2"))))
+    = Some (bs "https://u:p@ex.com:8443/d1/d2/other.html")
+  /\ obs_text (normalize (Some ex_parent) (RSchemeRel (Auth None [bs "host"; bs "tld"] None) [bs "path"] None None))
+    = Some (bs "https://host.tld/path")
+  /\ normalize (Some ex_parent) (RFrag (Some [])) <> normalize (Some ex_parent) (RFrag None).
+Proof. vm_compute. repeat split; try reflexivity. discriminate. Qed.
+
 (* ---------- query parameters: order and multiplicity kept through the whole normaliser *)
 
 Definition ref_query (r : ref) : option bytes :=
